@@ -209,6 +209,11 @@ def run(ctx):
         ctx.sample(ev[j])
     rej = ctx.judge('Trace_Enc', ev, chunk=20000)
     ctx.traces += len(ev) - len(rej)
+    bad = {i for i, _ in rej}
+    good = [e for i, e in enumerate(ev) if i not in bad]
+    ctx.selftest(lambda b: ctx.judge('Trace_Enc', b), good,
+                 [('a tampered message returned some other plaintext', lambda e: dict(e, outcome='returned', plain='0' * 64) if e['outcome'] == 'raised' and not e['wrongkey'] else None),
+                  ('a wrong key returned the original', lambda e: dict(e, outcome='returned', plain=e['originals'][0]) if e['wrongkey'] and e['outcome'] == 'raised' else None)], 'C04')
     oc = {}
     for e in ev:
         k = '%s/%s' % (e['action'].split(' ')[0], 'raised' if e['outcome'] == 'raised' else ('original' if e['plain'] in e['originals'] else 'OTHER'))
